@@ -27,7 +27,7 @@ def main():
         return 0
     # fixed work per job; server-world cases cost 5-45 ms each under ASan (13 sockets, settle loops),
     # connection and pure cases well under 1 ms
-    slow = {'C10': 5000, 'C18': 5000, 'C09': 8000, 'C07': 30000, 'C08': 20000}
+    slow = {'C10': 4000, 'C18': 4000, 'C09': 8000, 'C07': 12000, 'C08': 10000}
     def runs_for(sub):
         if 'MHV_FUZZ_RUNS_ANY' in os.environ:
             return int(os.environ['MHV_FUZZ_RUNS_ANY'])
